@@ -42,7 +42,7 @@ def judgeFor (prop : String) : Except String (Case → ObsLine → Verdict) :=
   | "C01" => pure judgeParse
   | "C02" => pure judgeParse
   | "C03" => pure judgeParse
-  | "C04" => pure (judgeTabWith [])
+  | "C04" => pure (judgeTabWith ["C04"])
   | "C05" => pure (judgeTabWith ["C05"])
   | "C06" => pure (judgeTabWith ["C06"])
   | "C19" => pure (judgeTabWith [])
